@@ -23,6 +23,7 @@ import Precis.Props.C12
 import Precis.Props.C13
 import Precis.Props.C14
 import Precis.Props.C18
+import Precis.Lemmas.Utf8Bytes
 namespace Precis.C01
 open Precis Precis.Spec
 
@@ -173,6 +174,26 @@ theorem canon_total (p : Profile) (s : List Nat) (h : Fits s)
 /-- stabilize with any rule function -/
 theorem stabilize_total (f : List Nat → Res (List Nat)) (s : List Nat) (h : ∀ x, f x ≠ .panic) :
     stabilize f s ≠ .panic := C13.stab_no_panic f s h
+
+/-- "never slices a string inside a multi-byte character", in terms of REAL UTF-8 bytes (Lemmas/Utf8Bytes.lean):
+the position every fast path slices at — the byte offset `str::find` returns — is a char boundary of the encoded string
+in the sense of `str::is_char_boundary`, so `&s[..pos]` and `&s[pos..]` succeed, and they are the bytes before / from the
+first matching character.  The model's `sliceTo`/`sliceFrom` answer `none` (= Rust panics) exactly off such boundaries
+(`Utf8Bytes.sliceTo_isSome_iff`, `sliceFrom_isSome_iff`). -/
+theorem find_offset_is_char_boundary (p : Nat → Bool) (s : List Nat) (hs : ∀ c ∈ s, c < 0x110000) (pos : Nat)
+    (hf : findByte p s = some pos) :
+    Utf8Bytes.isCharBoundary (Utf8Bytes.encode s) pos = true ∧ pos ≤ (Utf8Bytes.encode s).length ∧
+      (sliceTo s pos).isSome = true ∧ (sliceFrom s pos).isSome = true := by
+  have hb := (Utf8Bytes.findByte_bytes p s hs pos hf).2
+  have h1 := Utf8Bytes.sliceTo_isSome_iff s hs pos
+  have h2 := Utf8Bytes.sliceFrom_isSome_iff s hs pos
+  obtain ⟨hsl, _⟩ := slice_at_find p s pos hf
+  have h3 : (sliceTo s pos).isSome = true := by rw [hsl]; rfl
+  rw [h3, hb, Bool.and_true] at h1
+  have hle : pos ≤ (Utf8Bytes.encode s).length := by simpa using h1.symm
+  refine ⟨hb, hle, h3, ?_⟩
+  rw [h2, hb, Bool.and_true]
+  simpa using hle
 
 /-- non-vacuity: the model CAN express a panic — slicing inside a multi-byte character is one -/
 example : sliceTo [0xE9, 0x20] 1 = none := by decide
